@@ -69,6 +69,15 @@ def make_resolver(world, backend_crate, bindings):
         return find_impl_fn(world, backend_crate, "::" + tail, method, arg)
     return resolver
 
+def run_fromstr(world, ty_contains):
+    """paseto-core FromStr impl for a type, evaluated with base64 kept opaque."""
+    c = world.crates["paseto_core"]
+    cands = [f for k, f in c.fns.items() if "FromStr for " + ty_contains in k and "{closure" not in k and k.endswith("::from_str")]
+    if len(cands) != 1:
+        return None, None
+    it = Interp(world, inline_filter=lambda f: not f["key"].startswith("base64::"))
+    return cands[0], (it, it.run(cands[0]))
+
 def core_fn(world, key_contains):
     c = world.crates["paseto_core"]
     cands = [f for k, f in c.fns.items() if key_contains in k and "{closure" not in k]
@@ -171,6 +180,13 @@ def compose_token(world, backend, purpose):
         pk = ru.interp.argval(rets[0].path, rets[0].ret)
         out["unsealing_key"] = ru.norm.n(pk)
         keyarg = ("ptr", ("T", ("agg", "adt:Key::Key", (pk,))))
+    # serialise + parse (Display/FromStr are mirror images: C09; FromStr's field construction: R01.6):
+    # the parsed token carries the same payload / footer bytes and footer = F::decode(footer bytes)
+    if isinstance(tok, tuple) and tok[0] == "agg" and len(tok[2]) >= 3:
+        ef = tok[2][1]
+        efc = ef[1] if isinstance(ef, tuple) and ef and ef[0] == "vec" else ef
+        parsed_footer = ("okv", ("call", "<F as Footer>::decode", (efc,)))
+        tok = ("agg", tok[1], (tok[2][0], tok[2][1], parsed_footer) + tuple(tok[2][3:]))
     args = [tok, keyarg, ("ptr", ("P", 3, "aad")), ("ptr", ("P", 4, "v"))]
     unseal = Run(world, g, args=args, subst=sub, resolver=res, path=Path())
     out["unseal"] = unseal
